@@ -95,8 +95,9 @@ impl<T> Array<T> {
         if axis.0 >= self.dimensions() || index >= self.shape[axis.0] {
             None
         } else {
-            let offset = index * self.strides[axis.0];
-            let data = &self.data[offset..];
+            // An array with a zero-length axis has no data: its views are empty, whatever the offset
+            let offset = index.saturating_mul(self.strides[axis.0]);
+            let data = self.data.get(offset..).unwrap_or(&[]);
             let shape = self.shape.remove_axis(axis);
             let strides = self.strides.remove_axis(axis);
 
